@@ -115,11 +115,26 @@ Proof.
 Qed.
 
 (* ------------------------------------------------------------------ says as a list function *)
+Lemma existsb_ext {A} (f g : A -> bool) l : (forall x, f x = g x) -> existsb f l = existsb g l.
+Proof. intros H. induction l as [|x l IH]; [reflexivity|]. cbn. rewrite H, IH. reflexivity. Qed.
+
+Definition rest_text (i : nat) (s : str) (ts : list inode) : list inode :=
+  if Nat.eqb i (length s) then ts else IText (skipn i s) :: ts.
 Fixpoint says_list (e : env) (es : list enode) (ts : list inode) : bool :=
-  match es, ts with
-  | [], [] => true
-  | x :: es', t :: ts' => says e x t && says_list e es' ts'
-  | _, _ => false
+  match es with
+  | [] => match ts with [] => true | _ => false end
+  | EData atoms :: es' =>
+      match ts with
+      | IText s :: ts' =>
+          existsb (fun i => atoms_match e atoms (firstn i s) && says_list e es' (rest_text i s ts'))
+                  (seq 0 (S (length s)))
+      | _ => false
+      end
+  | (EElem _ _ _ as x1) :: es' =>
+      match ts with
+      | t1 :: ts' => says e x1 t1 && says_list e es' ts'
+      | [] => false
+      end
   end.
 Lemma says_elem_eq e q eats ekids q' ds tats tkids :
   says e (EElem q eats ekids) (IElem q' ds tats tkids)
@@ -128,14 +143,11 @@ Lemma says_elem_eq e q eats ekids q' ds tats tkids :
                                               && atoms_match (rev ds ++ e) (snd ea) (snd ta)) tats) eats
      && says_list (rev ds ++ e) ekids tkids).
 Proof.
-  cbn [says]. f_equal. revert tkids. induction ekids as [|x es IH]; intros [|t ts]; try reflexivity.
-  cbn [says_list]. rewrite IH. reflexivity.
-Qed.
-Lemma says_list_app e a b c d :
-  says_list e a c = true -> says_list e b d = true -> says_list e (a ++ b) (c ++ d) = true.
-Proof.
-  revert c. induction a as [|x a IH]; intros [|t c]; cbn; try discriminate; [tauto|].
-  intros H Hb. apply andb_true_iff in H as [H1 H2]. rewrite H1. exact (IH c H2 Hb).
+  cbn [says]. f_equal. revert tkids. induction ekids as [|x es IH]; intros ts; [reflexivity|].
+  destruct x as [atoms|qx ax kx]; cbn [says_list].
+  - destruct ts as [|[s|] ts']; try reflexivity.
+    apply existsb_ext. intros i. unfold rest_text. rewrite IH. reflexivity.
+  - destruct ts as [|t1 ts']; [reflexivity|]. rewrite IH. reflexivity.
 Qed.
 
 (* ------------------------------------------------------------------ attributes *)
@@ -270,7 +282,7 @@ Definition dq_node (u0 : option str) (q : qname) (ats : list (qname * wvalue)) (
   forallb (fun a => dq_value u0 q (attr_conv a)) ats
   && forallb (fun k => match k with IData v => dq_value u0 q v | INode _ _ _ => true end) ks.
 Definition sg_node (u0 : option str) (q : qname) (ats : list (qname * wvalue)) (ks : list item) : bool :=
-  name_ok q && forallb (sattr_ok u0) ats && nil_ok ats ks && adj_ok false ks && late_ok ks && dq_node u0 q ats ks.
+  name_ok q && forallb (sattr_ok u0) ats && nil_ok ats ks && late_ok ks && dq_node u0 q ats ks.
 Definition sguard (u0 : option str) : item -> bool := all_nodes (sg_node u0) data_wf.
 
 (* ------------------------------------------------------------------ renderings survive the flush *)
@@ -369,17 +381,47 @@ Proof.
 Qed.
 
 (* ------------------------------------------------------------------ adjacent text *)
-Definition head_not_text (l : list inode) : Prop := match l with IText _ :: _ => False | _ => True end.
+Definition text_ne (n : inode) : Prop := match n with IText b => b <> [] | IElem _ _ _ _ => True end.
+Definition head_ne (l : list inode) : Prop := match l with IText b :: _ => b <> [] | _ => True end.
 
 Lemma merge_text_elem q ds ats ks r : merge_text (IElem q ds ats ks :: r) = IElem q ds ats ks :: merge_text r.
 Proof. reflexivity. Qed.
 Lemma merge_text_text t r :
-  t <> [] -> head_not_text (merge_text r) -> merge_text (IText t :: r) = IText t :: merge_text r.
+  t <> [] ->
+  merge_text (IText t :: r) = match merge_text r with
+                              | IText b :: r' => IText (t ++ b) :: r'
+                              | r' => IText t :: r'
+                              end.
 Proof.
-  intros Ht Hh. cbn [merge_text]. destruct (merge_text r) as [|[b|q ds ats ks] r'].
-  - destruct t; [contradiction|reflexivity].
-  - destruct Hh.
-  - destruct t; [contradiction|reflexivity].
+  intros Ht. cbn [merge_text]. destruct (merge_text r) as [|[b|q ds ats ks] r']; try reflexivity;
+    destruct t; [contradiction|reflexivity|contradiction|reflexivity].
+Qed.
+Lemma merge_text_head_ne l : Forall text_ne l -> head_ne (merge_text l).
+Proof.
+  induction 1 as [|n l Hn _ IH]; [exact I|]. destruct n as [t|q ds ats ks].
+  - cbn [text_ne] in Hn. rewrite (merge_text_text t l Hn).
+    destruct (merge_text l) as [|[b|q ds ats ks] r']; cbn [head_ne]; try exact Hn.
+    intros E. apply app_eq_nil in E as [E _]. contradiction.
+  - exact I.
+Qed.
+
+(* a text node written for one data event, in front of what the following events wrote *)
+Lemma says_cons_text e l t E B :
+  says e (EData l) (IText t) = true -> t <> [] ->
+  says_list e E (merge_text B) = true -> head_ne (merge_text B) ->
+  says_list e (EData l :: E) (merge_text (IText t :: B)) = true.
+Proof.
+  intros Hs Hne HE Hh. cbn [says] in Hs. rewrite (merge_text_text t B Hne).
+  destruct (merge_text B) as [|[b|q ds ats ks] r'] eqn:EB; cbn [says_list].
+  - apply existsb_exists. exists (length t). split; [apply in_seq; lia|].
+    rewrite firstn_all, Hs. unfold rest_text. rewrite PeanoNat.Nat.eqb_refl. exact HE.
+  - cbn [head_ne] in Hh. apply existsb_exists. exists (length t). split; [apply in_seq; rewrite app_length; lia|].
+    rewrite firstn_app_exact, Hs. unfold rest_text.
+    assert (Hlen : Nat.eqb (length t) (length (t ++ b)) = false).
+    { apply PeanoNat.Nat.eqb_neq. rewrite app_length. destruct b; [contradiction|cbn; lia]. }
+    rewrite Hlen, skipn_app_len. exact HE.
+  - apply existsb_exists. exists (length t). split; [apply in_seq; lia|].
+    rewrite firstn_all, Hs. unfold rest_text. rewrite PeanoNat.Nat.eqb_refl. exact HE.
 Qed.
 
 Definition kid_says (u0 : option str) (i : item) : Prop :=
@@ -400,35 +442,39 @@ Definition kid_says (u0 : option str) (i : item) : Prop :=
 Definition plain_kid (k : item) : bool :=
   match k with IData v => negb (has_ns_qname v) | INode _ _ _ => true end.
 
+Lemma denote_data_shape v : denote (IData v) = [] \/ exists l, denote (IData v) = [EData l].
+Proof.
+  cbn [denote]. destruct (atoms_of_value v) as [l|]; [|left; reflexivity].
+  destruct (atoms_trivial l); [left; reflexivity|right; eauto].
+Qed.
+Lemma denote_node_shape q ats ks x : denote (INode q ats ks) = [x] -> exists a k, x = EElem q a k.
+Proof. cbn [denote]. destruct (spec_attrs [] ats); [|discriminate]. intros H. inversion H. eauto. Qed.
+
 Lemma says_kids u0 ks :
   Forall (kid_says u0) ks ->
-  forall m e it, minv u0 m -> env_is e m ->
-    forallb (sguard u0) ks = true -> adj_ok it ks = true -> forallb plain_kid ks = true ->
+  forall m e, minv u0 m -> env_is e m ->
+    forallb (sguard u0) ks = true -> forallb plain_kid ks = true ->
     says_list e (flat_map denote ks) (merge_text (map itree_of (flat_map (wref m) ks))) = true
-    /\ (it = true -> head_not_text (merge_text (map itree_of (flat_map (wref m) ks)))).
+    /\ Forall text_ne (map itree_of (flat_map (wref m) ks)).
 Proof.
-  induction 1 as [|k ks Hk _ IH]; intros m e it Hinv He Hg Ha Hp.
-  - cbn. split; [reflexivity|intros; exact I].
+  induction 1 as [|k ks Hk _ IH]; intros m e Hinv He Hg Hp.
+  - cbn. split; [reflexivity|constructor].
   - cbn [forallb] in Hg, Hp. apply andb_true_iff in Hg as [Hgk Hgs]. apply andb_true_iff in Hp as [Hpk Hps].
+    destruct (IH m e Hinv He Hgs Hps) as [IH1 IH2].
     cbn [flat_map]. rewrite map_app.
     destruct k as [v|q ats kk].
-    + cbn [adj_ok] in Ha. apply andb_true_iff in Ha as [Ha1 Ha2].
-      destruct (IH m e true Hinv He Hgs Ha2 Hps) as [IH1 IH2]. specialize (IH2 eq_refl).
-      cbn [plain_kid] in Hpk. apply negb_true_iff in Hpk.
+    + cbn [plain_kid] in Hpk. apply negb_true_iff in Hpk.
       pose proof (Hk m e Hinv He Hgk Hpk) as Hd.
-      pose proof (value_falsy_enc m v) as Hf.
-      destruct (denote (IData v)) as [|x [|x2 xs]]; destruct (wref m (IData v)) as [|[t|ds0 q0 a0 k0] [|n2 ns]] eqn:Ew;
-        try contradiction.
-      * cbn [map app]. split; [exact IH1|intros _; exact IH2].
-      * destruct Hd as [Hs Hne]. cbn [map app itree_of].
-        rewrite (merge_text_text t _ Hne IH2). cbn [says_list]. rewrite Hs, IH1. split; [reflexivity|].
-        intros Hit. subst it. cbn in Ha1. apply negb_true_iff in Ha1. apply negb_false_iff in Ha1.
-        cbn [wref] in Ew. rewrite (Hf Ha1) in Ew. discriminate.
-    + cbn [adj_ok] in Ha.
-      destruct (IH m e false Hinv He Hgs Ha Hps) as [IH1 _].
-      destruct (Hk m e Hinv He Hgk) as [x [ds [q' [a [k' [Hd [Hw Hs]]]]]]].
-      rewrite Hd, Hw. cbn [map app]. cbn [itree_of] in Hs |- *. rewrite merge_text_elem.
-      cbn [says_list]. rewrite Hs, IH1. split; [reflexivity|intros _; exact I].
+      destruct (denote_data_shape v) as [Ed|[l Ed]]; rewrite Ed in Hd |- *;
+        destruct (wref m (IData v)) as [|[t|ds0 q0 a0 k0] [|n2 ns]]; try contradiction.
+      * cbn [map app]. split; [exact IH1|exact IH2].
+      * destruct Hd as [Hs Hne]. cbn [map app itree_of]. split.
+        -- apply says_cons_text; [exact Hs|exact Hne|exact IH1|apply merge_text_head_ne, IH2].
+        -- constructor; [exact Hne|exact IH2].
+    + destruct (Hk m e Hinv He Hgk) as [x [ds [q' [a [k' [Hd [Hw Hs]]]]]]].
+      rewrite Hd, Hw. cbn [map app]. destruct (denote_node_shape _ _ _ _ Hd) as [ea [ek ->]].
+      cbn [itree_of] in Hs |- *. rewrite merge_text_elem. cbn [says_list]. rewrite Hs, IH1.
+      split; [reflexivity|constructor; [exact I|exact IH2]].
 Qed.
 
 (* ------------------------------------------------------------------ where expected attributes come from *)
@@ -570,7 +616,7 @@ Lemma elem_says u0 pm m q ats ks e :
 Proof.
   intros HK Hpm Hm Hext He Hg Hgk.
   unfold sg_node in Hg. apply andb_true_iff in Hg as [Hg Hdq]. apply andb_true_iff in Hg as [Hg Hlate].
-  apply andb_true_iff in Hg as [Hg Hadj]. apply andb_true_iff in Hg as [Hg Hnil].
+  apply andb_true_iff in Hg as [Hg Hnil].
   apply andb_true_iff in Hg as [Hq Hats]. unfold dq_node in Hdq. apply andb_true_iff in Hdq as [Hdqa Hdqk].
   assert (Hqu : ouri_ok (fst q) = true) by (unfold name_ok in Hq; apply andb_true_iff in Hq; tauto).
   destruct (add_namespace_ok u0 m (fst q) Hm Hqu) as [I1 [E1 _]].
@@ -621,10 +667,9 @@ Proof.
       * intros e' He'.
         pose proof (flush_map_ok u0 q (flush_attrs (enc_is_none enc) am) m2' I3 Hfa) as Hf.
         set (m4 := flush_map q (flush_attrs (enc_is_none enc) am) m2') in *.
-        cbn [adj_ok andb negb] in Hadj. cbn [late_ok] in Hlate.
+        cbn [late_ok] in Hlate.
         inversion HK as [|? ? _ HK']; subst.
-        destruct (says_kids u0 r HK' m4 e' true (fl_inv _ _ _ _ _ Hf) He' Hgr Hadj Hlate) as [Hs1 Hs2].
-        specialize (Hs2 eq_refl).
+        destruct (says_kids u0 r HK' m4 e' (fl_inv _ _ _ _ _ Hf) He' Hgr Hlate) as [Hs1 Hs2].
         assert (Hfirst : match denote (IData v), txt_of enc with
                          | [], [] => True
                          | [x], [SText t] => says e' x (IText t) = true /\ t <> []
@@ -635,11 +680,11 @@ Proof.
           split; [exact Hnn|]. exists ts. split; [|exact Ht].
           exact (flush_renders_all u0 q _ m2' m4 v ts Hf I3 Hdv Hvn Hr). }
         cbn [flat_map]. rewrite map_app.
-        destruct (denote (IData v)) as [|x [|x2 xs]]; destruct (txt_of enc) as [|[t|ds0 q0 a0 k0] [|n2 ns]];
-          try contradiction.
+        destruct (denote_data_shape v) as [Ed|[l Ed]]; rewrite Ed in Hfirst |- *;
+          destruct (txt_of enc) as [|[t|ds0 q0 a0 k0] [|n2 ns]]; try contradiction.
         -- exact Hs1.
         -- destruct Hfirst as [Hsx Hne]. cbn [map app itree_of].
-           rewrite (merge_text_text t _ Hne Hs2). cbn [says_list]. rewrite Hsx, Hs1. reflexivity.
+           apply says_cons_text; [exact Hsx|exact Hne|exact Hs1|apply merge_text_head_ne, Hs2].
     + (* first content is an element *)
       destruct (Hfl false) as [Hfa Hfn].
       eexists _, _, _, _. split; [reflexivity|split; [reflexivity|]].
@@ -649,7 +694,7 @@ Proof.
       * intros e' He'.
         pose proof (flush_map_ok u0 q (flush_attrs false am) m2 I2 Hfa) as Hf.
         cbn [late_ok] in Hlate.
-        apply (says_kids u0 _ HK _ e' false (fl_inv _ _ _ _ _ Hf) He' Hgk Hadj).
+        apply (says_kids u0 _ HK _ e' (fl_inv _ _ _ _ _ Hf) He' Hgk).
         cbn [forallb plain_kid]. exact Hlate.
 Qed.
 
